@@ -178,6 +178,8 @@ def _classify_exception(exc):
     verif = os.path.realpath(env.VERIF_ROOT) + os.sep
     where = None
     for fr in tb:
+        if fr.filename.startswith("<"):   # frozen / generated frames (<frozen os>, <string>) have no file: realpath would put them under the cwd
+            continue
         f = os.path.realpath(fr.filename)
         if f.startswith(verif):
             where = ("verif", fr)
